@@ -42,6 +42,13 @@ def run(ctx):
         smi = rng.choice(SALTS + molgen.SMILES[:20])
         m = molgen.embedded(smi, nconf=2, seed=rng.choice([3, 11]), keep_hs=rng.random() < 0.7)
         if m is not None:
+            if rng.random() < 0.6:
+                # atom order matters to index bookkeeping: hydrogens before heavy atoms, ions in the middle or after the Hs
+                from rdkit import Chem
+                order = list(range(m.GetNumAtoms()))
+                rng.shuffle(order)
+                m = Chem.RenumberAtoms(m, order)
+                smi = smi + ' (atoms shuffled)'
             pool.append((smi, m, rng.randrange(m.GetNumConformers())))
     cases = m1lib.gen_cases(ctx, ctx.n(45, 700), pool=pool)
     found |= m1lib.run_cases(ctx, cases, 'C18 model/implementation tie (explicit H, floating atoms)') > 0
@@ -98,7 +105,4 @@ def run(ctx):
 
 
 def replay(ctx, path):
-    import json
-    d = json.load(open(path))
-    print(json.dumps({k: v for k, v in d['case'].items() if k != 'molblock'}, indent=1)[:6000])
-    return 0
+    return m1lib.replay_case(ctx, path)
